@@ -66,14 +66,15 @@ def table_case(draw, keyed):
 ints = st.integers(-2**62, 2**62) | st.integers(-3, 3)
 floats = st.floats(allow_nan=False, allow_infinity=True, width=64) | st.sampled_from([0.0, 1.5, -1.5, 2.0])
 strs = st.text(alphabet="abcXYZ 09_é", max_size=6) | st.sampled_from(["a", "b", "ab"])
-COLT = {"i": ints, "f": floats, "s": strs}
+uints = st.integers(0, 2**32 - 1) | st.integers(0, 3)
+COLT = {"i": ints, "f": floats, "s": strs, "u": uints, "b": st.booleans()}
 
 
 @st.composite
 def rows_case(draw):
     ncol = draw(st.integers(1, 4))
     names = ["c%d" % i for i in range(ncol)]
-    types = [draw(st.sampled_from("ifs")) for _ in names]
+    types = [draw(st.sampled_from("iffssub")) for _ in names]
     array = draw(st.booleans())
     lazy = (not array) and draw(st.integers(0, 5)) == 0   # columns created by the first dict row
     row = st.tuples(*[COLT[t] for t in types]).map(list)
@@ -309,7 +310,8 @@ def _norm(x):
 def check_rows(case, v):
     from scinumtools import RowCollector
     names, types, array = case["names"], case["types"], case["array"]
-    dt = {"i": dict(dtype=np.int64), "f": dict(dtype=float), "s": dict(dtype="U16")}
+    dt = {"i": dict(dtype=np.int64), "f": dict(dtype=float), "s": dict(dtype="U16"), "u": dict(dtype=np.uint32),
+          "b": dict(dtype=bool)}
     rows0 = [({n: r[j] for j, n in reversed(list(enumerate(names)))} if d else list(r))
              for r, d in zip(case["init"], case.get("init_dict") or [False] * len(case["init"]))]
     if case["lazy"]:
@@ -354,7 +356,11 @@ def check_rows(case, v):
             v.label("dict_row")
         elif op[0] == "sort":
             col, rev = op[1], op[2]
-            rc.sort(names[col], reverse=rev)
+            try:
+                rc.sort(names[col], reverse=rev)
+            except Exception as ex:
+                return v.fail("rows-raised", f"step {step}: sort({names[col]!r}, reverse={rev}) on a column of type "
+                                             f"{case['types'][col]!r} (array={array}) raised {ex!r}")
             rows, err = current_rows()
             if err:
                 return v.fail("rows-shape", f"step {step}: {err}")
